@@ -15,7 +15,9 @@ import (
 	"verif/harness/ref"
 )
 
-var c07Modes = []rfMode{{true, 64, ""}, {true, 64, "zstd"}, {true, 64, "lz4"}}
+// the fourth mode: lz4 frames without content checksum (LZ4F defaults, as non-Go writers emit them): there
+// the chunk CRC is the only thing between a flipped bit and the consumer
+var c07Modes = []rfMode{{true, 64, "", 0}, {true, 64, "zstd", 0}, {true, 64, "lz4", 0}, {true, 64, "", 4}}
 
 type chunkSpan struct {
 	recOff, recLen int // stored records field
@@ -235,7 +237,7 @@ func c07Crafted() *model.Content {
 }
 
 func c07Att(x *explore.Ctx, nWork int) *explore.Verdict {
-	f := chooseFileFrom(x, append([]*model.Content{c07Crafted()}, rfWorkloads()...), nWork+1, []rfMode{{false, 0, ""}, {true, 64, ""}}, true)
+	f := chooseFileFrom(x, append([]*model.Content{c07Crafted()}, rfWorkloads()...), nWork+1, []rfMode{{false, 0, "", 0}, {true, 64, "", 0}}, true)
 	var atts []*ref.Rec
 	for i := range f.dec.Recs {
 		if f.dec.Recs[i].Op == ref.OpAttachment {
